@@ -72,3 +72,41 @@ func TestTimelyEagerExplore(t *testing.T) {
 	}
 	t.Logf("eager: %v violations=%d", hist, viol)
 }
+
+func TestLockCompareFailExplore(t *testing.T) {
+	QuietLogs(t)
+	viol, variant, ydec := 0, 0, 0
+	for i := 0; i < 3000; i++ {
+		res := RunLockCase(rand.New(rand.NewSource(int64(i)*13 + 5)))
+		if res.Meta.Policy != "lock-override/compare-fail-committer" {
+			continue
+		}
+		variant++
+		y := res.Meta.CompareFailPairs[0][0]
+		if len(res.Sim.Procs[y].Decisions) > 0 {
+			ydec++
+		}
+		if f := CheckAgreement(res.Sim); len(f) > 0 {
+			viol++
+			if viol < 3 {
+				t.Logf("case %d: %s", i, f[0].What)
+			}
+		}
+	}
+	t.Logf("variant cases %d, y decided %d, agreement violations %d", variant, ydec, viol)
+}
+
+func TestLockCompareFailTrace(t *testing.T) {
+	QuietLogs(t)
+	for i := 0; i < 3000; i++ {
+		res := RunLockCase(rand.New(rand.NewSource(int64(i)*13 + 5)))
+		if res.Meta.Policy != "lock-override/compare-fail-committer" {
+			continue
+		}
+		t.Logf("meta %+v", res.Meta)
+		for _, l := range res.Runner.TraceStrings(400)[:min(160, len(res.Runner.Trace))] {
+			t.Log(l)
+		}
+		return
+	}
+}
